@@ -70,8 +70,7 @@ def check_selection(names, via_main=False):
                              "selection %r run a second time on the same dictionary: %s" % (list(names), why2)))
     if not via_main:
         for n, g in batch.items():
-            rest = {k: v for k, v in g.items() if k != "prune_states"}
-            was = {k: v for k, v in pristine[n].items() if k != "prune_states"}
+            rest, was = dict(g), dict(pristine[n])        # every key, including a 'prune_states' entry of the caller's own
             if rest != was or repr(rest) != repr(was):
                 findings.append(("C12/caller-game-changed", repr(rest)[:300], repr(pristine[n])[:300],
                                  "selection %r: the caller's game %s was changed by the batch run" % (list(names), n)))
